@@ -264,7 +264,7 @@ fn refs_of(v: &Json) -> Vec<(String, usize)> {
 /// Apply one edit; returns {ok, id}.  A panic inside walrus is reported as ok=false, id=-2.
 pub fn apply(m: &mut Module, e: &Json) -> Json {
     let op = e["op"].as_str().unwrap_or("");
-    let mut extra: Option<(Vec<usize>, Vec<usize>, Option<(Vec<i32>, i32)>)> = None;
+    let mut extra: Option<(Vec<usize>, Vec<usize>, Option<(Vec<i32>, i32, Vec<String>)>)> = None;
     let r = catch_unwind(AssertUnwindSafe(|| -> (bool, i64) {
         match op {
             "add_export" => {
@@ -438,6 +438,15 @@ pub fn apply(m: &mut Module, e: &Json) -> Json {
                         body.local_get(*a).drop();
                     }
                     body.i64_const(7).local_set(scratch);
+                    // ... and has a loop and a block, each with a conditional branch to itself that is never taken
+                    body.loop_(None, |l| {
+                        let me = l.id();
+                        l.i32_const(0).br_if(me);
+                    });
+                    body.block(None, |b| {
+                        let me = b.id();
+                        b.i32_const(0).br_if(me);
+                    });
                     build_body(body, &res, &results);
                 };
                 let r = if op == "replace_imported" {
@@ -453,13 +462,14 @@ pub fn apply(m: &mut Module, e: &Json) -> Json {
                             _ => vec![usize::MAX],
                         };
                         // how the new body comes out: a trial emission (emit_wasm leaves the Module as it is) read back
-                        let mut emitted: Option<(Vec<i32>, i32)> = None;
+                        let mut emitted: Option<(Vec<i32>, i32, Vec<String>)> = None;
                         if let Ok(em) = crate::run::emit(m, true) {
                             if let (Some((_, fi)), Ok(am)) = (em.emit.func.iter().find(|(i, _)| *i == id.index() as i32), crate::absmod::project(&em.bytes)) {
                                 if let Some(af) = am.funcs.iter().find(|g| g.idx as i32 == *fi) {
                                     let reads: Vec<i32> = af.ops.iter().filter(|o| o.o == "LocalGet").take(params.len()).map(|o| o.local).collect();
                                     let sc = af.ops.iter().find(|o| o.o == "LocalSet").map(|o| o.local).unwrap_or(-1);
-                                    emitted = Some((reads, sc));
+                                    let shape: Vec<String> = af.ops.iter().filter(|o| ["Loop", "Block", "If", "Else", "End", "Br", "BrIf"].contains(&o.o.as_str())).take(6).map(|o| if o.o == "BrIf" || o.o == "Br" { format!("{}{}", o.o, o.labels.first().copied().unwrap_or(99)) } else { o.o.clone() }).collect();
+                                    emitted = Some((reads, sc, shape));
                                 }
                             }
                         }
@@ -475,8 +485,8 @@ pub fn apply(m: &mut Module, e: &Json) -> Json {
     match r {
         Ok((ok, id)) => match extra {
             Some((handed, params, emitted)) => match emitted {
-                Some((reads, sc)) => json!({"ok": ok, "id": id, "handed": handed, "params": params, "trial": true, "reads": reads, "scratch": sc}),
-                None => json!({"ok": ok, "id": id, "handed": handed, "params": params, "trial": false, "reads": [], "scratch": -1}),
+                Some((reads, sc, shape)) => json!({"ok": ok, "id": id, "handed": handed, "params": params, "trial": true, "reads": reads, "scratch": sc, "shape": shape}),
+                None => json!({"ok": ok, "id": id, "handed": handed, "params": params, "trial": false, "reads": [], "scratch": -1, "shape": []}),
             },
             None => json!({"ok": ok, "id": id}),
         },
